@@ -122,7 +122,16 @@ class Engine(Interp, InterpExpr, InterpComp, InterpStmt, InterpCall, InterpBuilt
         prefix = {ListV: 'L.', SetV: 'S.', DictV: 'D.', RecV: 'R.'}.get(type(v))
         if prefix is None:
             raise Unsupported('contents() of a non-container')
-        return ('contents', v.ref, prefix)
+        # the heap arrays that hold the contents of a container of this element type (a dict keyed by an enum and a dict
+        # keyed by str are never the same object: their contents live in different arrays)
+        names = None
+        if isinstance(v, DictV):
+            names = (self.dict_has(v)[0], self.dict_val(v)[0])
+        elif isinstance(v, SetV) and v.ety != ANY:
+            names = (self.set_arr(v)[0],)
+        elif isinstance(v, ListV):
+            names = ('L.len', self.list_data(v)[0])
+        return ('contents', v.ref, prefix, names)
 
     def bi_whole(self, args, kw, line):
         return ('array', args[0])
@@ -133,9 +142,11 @@ class Engine(Interp, InterpExpr, InterpComp, InterpStmt, InterpCall, InterpBuilt
     def bi_everything_but(self, args, kw, line):
         """everything_but('F:state:', 'F:supvisors:', ...): any heap array may change except those whose name starts with
         one of the given prefixes (frames of call-outs that are only known not to touch a few fields)"""
-        if not all(isinstance(a, str) for a in args):
-            raise Unsupported('everything_but expects literal array-name prefixes')
-        return ('array_except', tuple(args))
+        prefixes = tuple(a for a in args if isinstance(a, str))
+        items = tuple(a for a in args if isinstance(a, tuple) and a and a[0] in ('contents', 'field'))
+        if len(prefixes) + len(items) != len(args):
+            raise Unsupported('everything_but expects array-name prefixes, contents(x) or field(o, name) items')
+        return ('array_except', prefixes, items)
 
     def bi_contents_where(self, args, kw, line):
         """contents_where(lambda r: <Bool over an object/collection value r of class/kind K>, K)"""
@@ -168,13 +179,22 @@ class Engine(Interp, InterpExpr, InterpComp, InterpStmt, InterpCall, InterpBuilt
                 return 'all'
             refs, preds = [], []
             for it in items:
-                if it[0] == 'array_except' and not any(name.startswith(p) for p in it[1]):
-                    return 'all'
+                if it[0] == 'array_except':
+                    if any(name.startswith(p) for p in it[1]):
+                        continue
+                    # objects whose contents / field are protected although the rest of the array may change
+                    prot = [x[1] for x in it[2]
+                            if (x[0] == 'contents' and name[:2] == x[2] and (x[3] is None or name in x[3]))
+                            or (x[0] == 'field' and name.startswith(f'F:{x[2]}:'))]
+                    if not prot:
+                        return 'all'
+                    preds.append(lambda r, prot=prot: z3.And([r != q for q in prot]))
+                    continue
                 if it[0] == 'array' and name.startswith(it[1]):
                     return 'all'
                 if it[0] == 'field' and name.startswith(f'F:{it[2]}:'):
                     refs.append(it[1])
-                if it[0] == 'contents' and name[:2] == it[2]:
+                if it[0] == 'contents' and name[:2] == it[2] and (len(it) < 4 or it[3] is None or name in it[3]):
                     refs.append(it[1])
                 if it[0] == 'pred' and name[:2] in ('L.', 'S.', 'D.', 'R.'):
                     preds.append(it[1])
